@@ -2143,6 +2143,12 @@ class LogicalFile:
 
         origin_references = [o.origin_reference for o in self.origins]
 
+        # (the file header is kept apart from the other sets)
+        if self.file_header_item.origin_reference not in origin_references:
+            raise RuntimeError(f"Origin reference {self.file_header_item.origin_reference} of {self.file_header_item} "
+                               f"is not that of any origin of the logical file "
+                               f"(references of the origins: {origin_references})")
+
         for eflr_set in own_sets:
             for item in eflr_set.get_all_eflr_items():
                 if item.origin_reference not in origin_references:
@@ -2170,6 +2176,9 @@ class LogicalFile:
         for other in self.physical_file.logical_files:
             if other is self:
                 continue
+            if other.file_header_item is self.file_header_item:
+                raise RuntimeError(f"{self.file_header_item} is the file header of two logical files; "
+                                   f"please create a separate file header for each logical file")
             for set_type, set_dict in self._eflr_sets.items():
                 for set_name, eflr_set in set_dict.items():
                     if eflr_set.n_items and other._eflr_sets.get(set_type, {}).get(set_name) is eflr_set:
